@@ -21,11 +21,12 @@ open Edp Edp.Framing
 
 /-! ## one message: `receive_message_from_read_half` -/
 
-/-- `erltf::decode_with_trailing`: version byte, one term, the bytes after it -/
+/-- `erltf::decode_with_trailing`: version byte, one term, the bytes after it (the same fuel as `Recv.decodeTrailing`,
+the model of the same function in `Impl/Recv.lean`: `bs.length + 1 + x.extra`) -/
 def decodeTrailing (x : Ext) (bs : Bytes) : DRes :=
   match bs with
   | [] => .error .err
-  | v :: r => if v != 131 then .error .err else dec x {} (r.length + 1 + x.extra) 0 r
+  | v :: r => if v != 131 then .error .err else dec x {} (bs.length + 1 + x.extra) 0 r
 
 /-- the `Err` values of `receive_message_from_read_half` by variant, and a panic inside it -/
 inductive RxErr where
@@ -41,7 +42,8 @@ inductive RxErr where
   | empty
   /-- `Error::Protocol`: the first byte of the frame is not the pass-through marker 112 -/
   | marker (b : UInt8)
-  /-- `Error::Decode`: control term or payload does not decode -/
+  /-- `Error::Decode`: control term or payload does not decode, or bytes are left after the payload term
+  (`DecodeError::TrailingData`, connection.rs l.772-777) -/
   | decode
   /-- `Error::InvalidControlMessage`: the control term is not a control tuple -/
   | control
@@ -57,7 +59,10 @@ def RxErr.ofRead : RErr → RxErr
 
 abbrev Received := Control.Msg × Option Term
 
-/-- what `receive_message_from_read_half` makes of a frame body it has read completely -/
+/-- what `receive_message_from_read_half` makes of a frame body it has read completely (connection.rs l.741-785, branch by
+branch: empty buffer; first byte is not the pass-through marker 112 — this includes the 131 of a distribution-header or
+fragment frame, which this function does not understand —; `decode_with_trailing` of the control term; `from_term`; nothing
+left = no payload; otherwise `decode_with_trailing` of the payload, after which NOTHING may be left) -/
 def classify (x : Ext) (tbl : Control.Table) (body : Bytes) : Except RxErr Received :=
   match body with
   | [] => .error .empty
@@ -77,7 +82,8 @@ def classify (x : Ext) (tbl : Control.Table) (body : Bytes) : Except RxErr Recei
           match decodeTrailing x rest with
           | .error .panic => .error .panic
           | .error _ => .error .decode
-          | .ok (p, _) => .ok (m, some p)
+          | .ok (p, []) => .ok (m, some p)
+          | .ok (_, _ :: _) => .error .decode
 
 /-- one call of `receive_message_from_read_half`: result and the script that is left -/
 def recvMsg (x : Ext) (tbl : Control.Table) (evs : List Ev) : Except RxErr Received × List Ev :=
